@@ -20,6 +20,7 @@ import OpyVerif.Generated.BudgetDefs
 import OpyVerif.Generated.WalksDefs
 import OpyVerif.Generated.FindDefs
 import OpyVerif.Generated.PropsDefs
+import OpyVerif.Generated.SelectDefs
 import OpyVerif.Generated.ClipLoopsDefs
 /-
 Line-protocol driver: runs the *executable model definitions* on inputs sent by the Python
@@ -194,6 +195,11 @@ def step (d : DState) (line : String) : DState × String :=
   | ["s.tour", fit, rounds] => match parseInts fit, parsePos rounds with
     | some f, some r => (d, match tournament f r with | some s => showNats s | none => "error")
     | _, _ => (d, "bad-op")
+  | ["w.tour", fit, rounds] => match parseInts fit, parsePos rounds with
+    | some f, some r => (d, match Opy.Gen.tournProg.run f r with | some s => showNats s | none => "error")
+    | _, _ => (d, "bad-op")
+  | ["w.bern", p, us] => match p.toInt?, parseInts us with
+    | some p, some us => (d, match Opy.Gen.bernProg.run p us with | some s => showNats s | none => "error") | _, _ => (d, "bad-op")
   | ["s.pair", l] => match parseInts l with
     | some l => (d, showPos (pairwise l)) | none => (d, "bad-op")
   | ["s.bern", p, us] => match p.toInt?, parseInts us with
